@@ -194,6 +194,47 @@ def afterUpgrade (c : Ctx) (post : State) : SM Ctx := do
                   syncNext := ← syncOfOpt post.validators post.next_sync_committee }
   else pure c
 
+/-! ## Executable checks of the step hypotheses (run by `zmodel c08` on every observed step) -/
+
+/-- one registry field: unchanged, or moved from `FAR_FUTURE_EPOCH` to an epoch `≥ compute_activation_exit_epoch(N)` -/
+def fieldWriteB (cfg : Config) (N old new : Nat) : Bool :=
+  decide (new = old) || (decide (old = FAR_FUTURE_EPOCH) && decide (compute_activation_exit_epoch cfg N ≤ new))
+
+/-- Decides the write relation `Zrnt.Proofs.Ctx.EpochWrites cfg N st st'` the C08 theorems assume of blocks and of the
+epoch transition of epoch `N` (soundness: `Zrnt.Proofs.C08.epochWritesB_sound`). -/
+def epochWritesB (cfg : Config) (N : Nat) (st st' : State) : Bool :=
+  decide (st.validators.length ≤ st'.validators.length) &&
+  (List.range st.validators.length).all (fun i =>
+    match st.validators[i]?, st'.validators[i]? with
+    | some v, some v' =>
+      fieldWriteB cfg N v.activation_epoch v'.activation_epoch && fieldWriteB cfg N v.exit_epoch v'.exit_epoch
+    | _, _ => false) &&
+  (List.range' st.validators.length (st'.validators.length - st.validators.length)).all (fun i =>
+    match st'.validators[i]? with
+    | some v' => decide (v'.activation_epoch = FAR_FUTURE_EPOCH)
+    | none => false) &&
+  decide (st'.randao_mixes.length = st.randao_mixes.length) &&
+  (List.range st.randao_mixes.length).all (fun j =>
+    decide (j = N % cfg.EPOCHS_PER_HISTORICAL_VECTOR) || decide (j = (N + 1) % cfg.EPOCHS_PER_HISTORICAL_VECTOR) ||
+    decide (st'.randao_mixes[j]? = st.randao_mixes[j]?))
+
+/-- the remaining hypotheses of the in-epoch step theorem (`block_eq_ctxOf`): existing validators keep pubkey and
+effective balance, the state's sync committees are untouched -/
+def inEpochHypsB (st st' : State) : Bool :=
+  let n := st.validators.length
+  decide ((st'.validators.take n).map (·.pubkey) = st.validators.map (·.pubkey)) &&
+  decide ((st'.validators.take n).map (·.effective_balance) = st.validators.map (·.effective_balance)) &&
+  decide (st'.current_sync_committee = st.current_sync_committee) &&
+  decide (st'.next_sync_committee = st.next_sync_committee)
+
+/-- the remaining hypotheses of the rotation theorem (`rotate_eq_ctxOf`): no validator added by the epoch transition,
+sync committees moved as `process_sync_committee_updates` does -/
+def boundaryHypsB (cfg : Config) (N : Nat) (st st' : State) : Bool :=
+  decide (st'.validators.map (·.pubkey) = st.validators.map (·.pubkey)) &&
+  (if st'.fork ≥ Fork.altair ∧ (N + 1) % cfg.EPOCHS_PER_SYNC_COMMITTEE_PERIOD = 0 then
+    decide (st'.current_sync_committee = st.next_sync_committee)
+   else decide (st'.current_sync_committee = st.current_sync_committee) && decide (st'.next_sync_committee = st.next_sync_committee))
+
 /-! ## Canonical text form (same tokens as go/internal/ctxcheck/dump.go) -/
 
 def natList (l : List Nat) : String := joinOr "," (l.map toString)
